@@ -100,7 +100,7 @@ M = [
     ("m106_f2_reverted", SU, "            symbol = symbol.lstrip(\"%\").lstrip(\"0\") or \"0\"\n", "", ["C03"]),
     ("m107_f10_reverted", G, "[+-][1-9][0-9]*)?)", "[+-][1-9]+)?)", ["C07", "C10"]),
     ("m108_f7_reverted", SU, "    if latom.index == ratom.index:\n        err_msg = \"ring bond specified from an atom to itself\"\n        raise SMILESParserError(smiles, err_msg, ltoken.start_idx)\n", "", ["C09"]),
-    ("m109_f14_reverted", D, "            n_read += 1\n", "            pass\n        n_read = n_symbols\n", ["C17"]),
+    ("m109_f14_reverted", D, "    return get_index_from_selfies(*index_symbols), n_read", "    return get_index_from_selfies(*index_symbols), n_symbols", ["C17"]),
 ]
 
 PREAMBLE = {
